@@ -99,6 +99,19 @@ def build(scratch, specs, extra_text=''):
         t, h = splice_fn(parser, name, 'Parser', dict(attrs=['#[verifier::exec_allows_no_decreases_clause]']))
         out.append(t); shas['Parser::' + name + ' (uncontracted helper)'] = h
     out.append('}')
+    # every lower-case word literal that occurs in the two option functions gets its characters revealed (so that a literal introduced by an
+    # edit - e.g. a longer prefix - is as transparent to the solver as the ones the contract table already lists)
+    lits = []
+    for fname in ['parse_root_options', 'is_root_option_keyword']:
+        try:
+            fit = parser.fn(fname, impl='Parser')
+        except AnchorLost:
+            continue
+        for mm in re.finditer(r'"([a-z]{1,24})"', parser.text[fit['open']:fit['end']]):
+            if mm.group(1) not in lits:
+                lits.append(mm.group(1))
+    ens = ', '.join('"%s"@ == seq![%s]' % (w, ','.join("'%s'" % ch for ch in w)) for w in lits) or 'true'
+    out.append('proof fn opt_reveal_literals_auto()\n    ensures ' + ens + ',\n{\n' + ''.join('    reveal_strlit("%s");\n' % w for w in lits) + '}\n')
     import verus_engine
     out.append('\n'.join(verus_engine.HOISTED))
     verus_engine.HOISTED.clear()
